@@ -68,5 +68,36 @@ def run(ctx):
                 "events": [{k: v for k, v in e.items() if k not in ("cells",)} for e in traces[0]["ev"][4:7]]})
     ctx.extra["combos"] = sorted({f"{j[0]}/{j[1]}" for j in jobs})
     ec.validate(ctx, traces, ec.default_sig("ckpt"), ec.default_what)
+    # ---- delayed-policy learners (DDPG / TD3 / MATD3 with policy_freq 2, 3): "training bookkeeping" includes the phase of the
+    # policy delay; the restored agent must take its next actor / target update when the original would.  The Evo scripts above
+    # run these learners with policy_freq 1 (there "a learn step moves every trained network" is a per-step statement), so this
+    # is decided on the life-cycle specification Track.tla of C08 with save / load placed at every phase (seed C07-i).
+    from . import c08
+    from ..drive import bellman as bm
+    by_pf = {2: [], 3: []}
+    k = 0
+    for variant, pf in [("DDPG", 2), ("TD3", 2), ("TD3", 3), ("MATD3", 2)] + ([] if quick else [("DDPG", 3), ("MATD3", 3)]):
+        for phase in range(pf):
+            pre = [("learn", 1, 10 + i) for i in range(1 + phase)]                 # counter = 1 + phase at the save
+            ops = ([("create", 1)] + pre + [("save", 1, 1), ("learn", 1, 30), ("loadnew", 1, 2)] + [("learn", 2, 40 + i) for i in range(pf + 1)]
+                   + [("learn", 1, 50), ("save", 2, 2), ("loadinto", 2, 1)] + [("learn", 1, 60 + i) for i in range(pf + 1)]
+                   + [("learn", 2, 70)])
+            by_pf[pf].append(bm.run_track(variant, "vector", ops, pf=pf, tau=[0.25, 0.5][(k + ctx.seed) % 2], seed=ctx.seed * 17 + 500 + k))
+            ctx.case(("ckpt-delay-phase", variant, pf, phase))
+            k += 1
+        for r in range(1 if quick else 4):
+            ops = bm.script(random.Random(ctx.seed * 1013 + k), pf, length=13 if quick else 22)
+            by_pf[pf].append(bm.run_track(variant, "vector", ops, pf=pf, tau=0.25, seed=ctx.seed * 17 + 500 + k))
+            ctx.case(("ckpt-delay-script", variant, pf, r))
+            k += 1
+    n_after_load = 0
+    for pf, ts in by_pf.items():
+        n_after_load += sum(1 for t in ts for e in t["ev"] if e["op"] == "learn" and str(e.get("after", "")).startswith("load"))
+        ctx.validate("Track_Trace", c08.track_cfg(pf), ts, sig=lambda t, v: "ckpt:" + c08.track_sig(t, v), what=c08.track_what, chunk=100)
+    ctx.extra["delay_phase_traces"] = sum(len(ts) for ts in by_pf.values())
+    ctx.extra["learn_steps_directly_after_a_load"] = n_after_load
+    if n_after_load == 0:
+        from ..core import Vacuous
+        raise Vacuous("delay-phase stage: no learn step directly after a load")
     ctx.assume("crash points: a save is one torch.save call; what a resume can observe is a file written by an earlier save while the agent moved on, which the scripts exercise")
     return "model_checking", ("case = (algorithm, observation family, script with save / load-new / load-into at varying points of a history of learn steps and mutations)"), False
